@@ -80,6 +80,8 @@ def session(pattern, folders, opts, seq, by_path, terminates_only=False):
         steps = []
         for op in seq:
             w.created, w.decoded, w.read_starts = [], [], []
+            for d_ in w.decoders:
+                d_.stalls = 0   # "never returns" is a statement about ONE call: repeated finite attempts are not a hang
             st = dict(op=op)
             try:
                 if op == "L":
